@@ -15,7 +15,8 @@ RULE = ("pairs of time-sorted internally non-overlapping event lists on a ms gri
         "spanning several of the other list both ways, containment both ways, shared edges, zero-length events, "
         "empty lists); non-trivial = some list-one and list-two event overlap for a positive time; signature = set "
         "of Allen relations between the lists + flags (one-spans-many, two-spans-many, zero-length in one/two)")
-ASSUMPTIONS = ["domain: each list sorted by timestamp as given, pairwise non-overlapping (closed ends may touch), durations >= 0"]
+ASSUMPTIONS = ["interval edges are millisecond aligned: an Event cannot START between milliseconds, so no implementation could return exact pieces for sub-millisecond ends (C09 states this granularity explicitly)",
+               "domain: each list sorted by timestamp as given, pairwise non-overlapping (closed ends may touch), durations >= 0"]
 
 
 def plan(tier):
